@@ -2772,9 +2772,14 @@ pub(crate) mod convert {
                     read::AttributeValue::Sdata(val) => val,
                     _ => return Err(ConvertError::InvalidAttributeValue),
                 };
-                // TODO: should we limit which names this is supported for?
-                // For example, if it occurred for DW_AT_decl_file then we
-                // wouldn't correct convert the file index.
+                // File indices must be converted because the file table may be
+                // renumbered. This loses the form, but not the meaning.
+                // TODO: should we limit which other names this is supported for?
+                if let read::AttributeValue::FileIndex(val) = attr.value() {
+                    return Ok(AttributeValue::FileIndex(
+                        self.convert_file_index(read_unit, val)?,
+                    ));
+                }
                 return Ok(AttributeValue::ImplicitConst(implicit_const_value));
             }
             Ok(match attr.value() {
